@@ -6,6 +6,7 @@ package h
 // an hour and the lifecycle oracle judges both ends.
 
 import (
+	"sync/atomic"
 	"context"
 	"fmt"
 	"math/rand"
@@ -298,6 +299,16 @@ func famTermination(w *World, c *Case, rng *rand.Rand) {
 		}
 	}
 	tc := w.TCh
+	// an application goroutine of the usual form "<-ch.Done(); return ch.Err()": what it reads at
+	// the moment Done() closes must already tell a clean end from an abnormal one (the channel's own
+	// shutdown is held briefly after its tear-down callback so that this goroutine gets there first)
+	type firstLook struct{ err error }
+	var first atomic.Pointer[firstLook]
+	w.installYield(&YieldPlan{Parks: map[string][]time.Duration{"client.close.afterTearDown": {time.Millisecond, time.Millisecond, time.Millisecond}}})
+	go func() {
+		<-tc.Done()
+		first.Store(&firstLook{tc.Err()})
+	}()
 	strikeVT := w.VT()
 	var stopDone chan struct{}
 	switch cause {
@@ -361,6 +372,15 @@ func famTermination(w *World, c *Case, rng *rand.Rand) {
 	}
 	err1 := tc.Err()
 	clean := cause == "close" || cause == "stop" || cause == "gracefulstop-then-stop"
+	if fl := first.Load(); fl != nil {
+		w.Stat("termination_err_read_as_done_closes", 1)
+		if !clean && fl.err == nil {
+			w.Violate("C04", "err-nil-when-done-closes:"+cause, "cause %s at frame %d (%s): Err() read by a goroutine woken by Done() was nil, an hour later it is %v", cause, k, w.Cfg.Dir, err1)
+		}
+		if clean && fl.err != nil && err1 == nil {
+			w.Violate("C04", "err-flipped", "cause %s at frame %d (%s): Err() read by a goroutine woken by Done() was %v, an hour later it is nil", cause, k, w.Cfg.Dir, fl.err)
+		}
+	}
 	if clean && err1 != nil {
 		w.Violate("C04", "err-non-nil-after-clean-end:"+cause, "cause %s at frame %d (%s): Err() = %v after a clean end", cause, k, w.Cfg.Dir, err1)
 	}
